@@ -11,307 +11,12 @@ Only theorems over an arbitrary carrier (instantiated here at `Float`) or about
 `Nat`/`Int`/`String`/`Float`-by-kernel-evaluation transfer: `Float` is not an ordered field.
 -/
 import CR.Tie.Basic
-import CR.Tie.Gen
-import CR.Tie.Gen2
 import CR.Tie.Tad
 import CR.Props.C03
 import CR.Props.C04
-import CR.Props.C08
-import CR.Props.C15
-import CR.Props.C17
 
 namespace CR.Tie
 open CR CR.Gen
-
-/-! ## C17: file names state the parameters -/
-
-/-- transfers `C17.percent_exact`: the code prints every whole percentage `k/100` exactly as `k` -/
-theorem code_percent_exact (k : Nat) (h1 : 1 ≤ k) (h2 : k ≤ 99) :
-    Ex.Gen.prob_to_str (Float.ofNat k / 100) = toString k := by
-  rw [prob_to_str_tie]
-  unfold probToStr
-  rw [C17.percent_exact k h1 h2]
-
-/-- transfers `C17.name_states_params`: the file name assembled by the code shows whole-percent probabilities
-as their percentage -/
-theorem code_name_states_params (seed w l m k1 k2 k3 k4 : Nat) (fd : Bool)
-    (h1 : 1 ≤ k1 ∧ k1 ≤ 99) (h2 : 1 ≤ k2 ∧ k2 ≤ 99) (h3 : 1 ≤ k3 ∧ k3 ≤ 99) (h4 : 1 ≤ k4 ∧ k4 ≤ 99) :
-    Ex.Gen.main_file_name seed w l m (Float.ofNat k1 / 100) (Float.ofNat k2 / 100) (Float.ofNat k3 / 100)
-        (Float.ofNat k4 / 100) fd
-      = fileNameN seed w l m k1 k2 k3 k4 fd := by
-  rw [main_file_name_tie]
-  exact C17.name_states_params seed w l m k1 k2 k3 k4 fd h1 h2 h3 h4
-
-/-- transfers `C17.name_injective_percent`: two whole-percent parameter sets for which the code assembles the
-same file name are equal (including the `force_down` flag) -/
-theorem code_name_injective_percent {s w l m a b c d s' w' l' m' a' b' c' d' : Nat} {fd fd' : Bool}
-    (ha : 1 ≤ a ∧ a ≤ 99) (hb : 1 ≤ b ∧ b ≤ 99) (hc : 1 ≤ c ∧ c ≤ 99) (hd : 1 ≤ d ∧ d ≤ 99)
-    (ha' : 1 ≤ a' ∧ a' ≤ 99) (hb' : 1 ≤ b' ∧ b' ≤ 99) (hc' : 1 ≤ c' ∧ c' ≤ 99) (hd' : 1 ≤ d' ∧ d' ≤ 99)
-    (h : Ex.Gen.main_file_name s w l m (Float.ofNat a / 100) (Float.ofNat b / 100) (Float.ofNat c / 100)
-          (Float.ofNat d / 100) fd
-        = Ex.Gen.main_file_name s' w' l' m' (Float.ofNat a' / 100) (Float.ofNat b' / 100)
-          (Float.ofNat c' / 100) (Float.ofNat d' / 100) fd') :
-    s = s' ∧ w = w' ∧ l = l' ∧ m = m' ∧ a = a' ∧ b = b' ∧ c = c' ∧ d = d' ∧ fd = fd' := by
-  rw [main_file_name_tie, main_file_name_tie] at h
-  exact C17.name_injective_percent ha hb hc hd ha' hb' hc' hd' h
-
-/-- the code on the documented example call -/
-example : Ex.Gen.main_file_name 47 5 5 6 (Float.ofNat 29 / 100) (Float.ofNat 57 / 100) (Float.ofNat 58 / 100)
-    (Float.ofNat 1 / 100) true = "inputs/robot_47_w5_l5_r6_rb29_lb57_tb58_lt1_force_down.py" :=
-  (code_name_states_params 47 5 5 6 29 57 58 1 true (by decide) (by decide) (by decide) (by decide)).trans
-    (by decide +kernel)
-
-/-! ## C15: `check_input` accepts exactly the documented ranges -/
-
-/-- the code's verdict is the model's -/
-theorem code_check_input_of_none {seed w l : Int} {pr plt plo pti : Float} {m : Int}
-    (h : checkInput seed w l pr plt plo pti m = none) :
-    Ex.Gen.check_input seed w l pr plt plo pti m = Except.ok () := by
-  rw [check_input_tie, h]
-
-theorem code_check_input_of_some {seed w l : Int} {pr plt plo pti : Float} {m : Int} {k : Nat}
-    (h : checkInput seed w l pr plt plo pti m = some k) :
-    Ex.Gen.check_input seed w l pr plt plo pti m = Except.error (checkInputMsg k) := by
-  rw [check_input_tie, h]
-
-theorem code_check_input_ok_iff_model (seed w l : Int) (pr plt plo pti : Float) (m : Int) :
-    Ex.Gen.check_input seed w l pr plt plo pti m = Except.ok ()
-      ↔ checkInput seed w l pr plt plo pti m = none := by
-  rw [check_input_tie]
-  cases checkInput seed w l pr plt plo pti m <;> simp
-
-/-- transfers `C15.check_input_iff` (with `C15.prob_check_iff`): the code accepts a parameter set iff every
-documented range holds: seed ≥ 0, width > 0, length > 0, max_reward > 0 and no probability is `≤ 0` or `≥ 1`
-(IEEE comparisons: a NaN passes, as in Python) -/
-theorem code_check_input_ok_iff (seed w l : Int) (pr plt plo pti : Float) (m : Int) :
-    Ex.Gen.check_input seed w l pr plt plo pti m = Except.ok () ↔
-      (0 ≤ seed ∧ 0 < w ∧ 0 < l ∧ (¬ pr ≤ 0 ∧ ¬ pr ≥ 1) ∧ (¬ plt ≤ 0 ∧ ¬ plt ≥ 1) ∧
-        (¬ plo ≤ 0 ∧ ¬ plo ≥ 1) ∧ (¬ pti ≤ 0 ∧ ¬ pti ≥ 1) ∧ 0 < m) := by
-  rw [code_check_input_ok_iff_model, C15.check_input_iff, C15.prob_check_iff, C15.prob_check_iff,
-    C15.prob_check_iff, C15.prob_check_iff]
-
-/-- the model only reports one of the eight checks -/
-theorem checkInput_lt_eight {seed w l : Int} {pr plt plo pti : Float} {m : Int} {k : Nat}
-    (h : checkInput seed w l pr plt plo pti m = some k) : k < 8 := by
-  unfold checkInput at h
-  split_ifs at h <;> cases h <;> decide
-
-/-- a refused parameter set yields `Except.error` (Python: `ValueError`) of one of the eight messages -/
-theorem code_check_input_refused (seed w l : Int) (pr plt plo pti : Float) (m : Int)
-    (h : Ex.Gen.check_input seed w l pr plt plo pti m ≠ Except.ok ()) :
-    ∃ k < 8, checkInput seed w l pr plt plo pti m = some k ∧
-      Ex.Gen.check_input seed w l pr plt plo pti m = Except.error (checkInputMsg k) := by
-  cases hc : checkInput seed w l pr plt plo pti m with
-  | none => exact absurd (code_check_input_of_none hc) h
-  | some k => exact ⟨k, checkInput_lt_eight hc, rfl, code_check_input_of_some hc⟩
-
-/-- the eight messages are pairwise different, so the message identifies the failed check -/
-theorem checkInputMsg_injective : ∀ i < 8, ∀ j < 8, checkInputMsg i = checkInputMsg j → i = j := by
-  decide
-
-/-- transfers `C15.check_input_first`: when several checks fail the code reports the first one in the
-documented order (seed, width, length, robot, light, loose-tile, tile-break probability, max reward) -/
-theorem code_check_input_first (seed w l : Int) (pr plt plo pti : Float) (m : Int) :
-    let r := Ex.Gen.check_input seed w l pr plt plo pti m
-    (seed < 0 → r = .error "The seed must be a nonnegative integer") ∧ (0 ≤ seed →
-    (w ≤ 0 → r = .error "The width must be a positive integer") ∧ (0 < w →
-    (l ≤ 0 → r = .error "The length must be a positive integer") ∧ (0 < l →
-    ((pr ≤ 0 || pr ≥ 1) = true →
-      r = .error "The failure probability of the robot must be a float in (0,1)") ∧
-    ((pr ≤ 0 || pr ≥ 1) = false →
-    ((plt ≤ 0 || plt ≥ 1) = true →
-      r = .error "The failure probability of the light must be a float in (0,1)") ∧
-    ((plt ≤ 0 || plt ≥ 1) = false →
-    ((plo ≤ 0 || plo ≥ 1) = true →
-      r = .error "The probability of a tile being loose must be a float in (0,1)") ∧
-    ((plo ≤ 0 || plo ≥ 1) = false →
-    ((pti ≤ 0 || pti ≥ 1) = true →
-      r = .error "The probability of a tile breaking must be a float in (0,1)") ∧
-    ((pti ≤ 0 || pti ≥ 1) = false →
-    (m ≤ 0 → r = .error "The maximum reward must be a positive integer") ∧
-    (0 < m → r = .ok ())))))))) := by
-  intro r
-  obtain ⟨f0, g0⟩ := C15.check_input_first seed w l pr plt plo pti m
-  refine ⟨fun h => code_check_input_of_some (f0 h), fun h0 => ?_⟩
-  obtain ⟨f1, g1⟩ := g0 h0
-  refine ⟨fun h => code_check_input_of_some (f1 h), fun h1 => ?_⟩
-  obtain ⟨f2, g2⟩ := g1 h1
-  refine ⟨fun h => code_check_input_of_some (f2 h), fun h2 => ?_⟩
-  obtain ⟨f3, g3⟩ := g2 h2
-  refine ⟨fun h => code_check_input_of_some (f3 h), fun h3 => ?_⟩
-  obtain ⟨f4, g4⟩ := g3 h3
-  refine ⟨fun h => code_check_input_of_some (f4 h), fun h4 => ?_⟩
-  obtain ⟨f5, g5⟩ := g4 h4
-  refine ⟨fun h => code_check_input_of_some (f5 h), fun h5 => ?_⟩
-  obtain ⟨f6, g6⟩ := g5 h5
-  refine ⟨fun h => code_check_input_of_some (f6 h), fun h6 => ?_⟩
-  obtain ⟨f7, g7⟩ := g6 h6
-  exact ⟨fun h => code_check_input_of_some (f7 h), fun h7 => code_check_input_of_none (g7 h7)⟩
-
-/-- the documented example call is accepted, a light-failure probability of 1 is refused with the fifth
-message even though the loose-tile probability and the maximum reward are out of range as well -/
-example : Ex.Gen.check_input 47 5 5 0.1 0.1 0.3 0.1 6 = Except.ok () :=
-  code_check_input_of_none (by decide +kernel)
-example : Ex.Gen.check_input 47 5 5 0.1 1.0 0.0 0.1 0
-    = Except.error "The failure probability of the light must be a float in (0,1)" :=
-  code_check_input_of_some (k := 4) (by decide +kernel)
-
-/-! ## C08 / C11: the three generated games
-
-`codeGame v` is the tuple `(rewards, players, transition_list, final_states)` returned by the translated
-`write_robot_A/B/C`; its components are `.1`, `.2.1`, `.2.2.1`, `.2.2.2`. -/
-
-section Games
-open CR.Roborta CR.GridLemmas
-
-/-- the code's generator of a variant -/
-def codeGame (v : Variant) (L W : Nat) (b : Board) (q : Params Float) :
-    List Int × List String × List (List (Py.Slot × Int)) × List Int :=
-  match v with
-  | .A => Ex.Gen.write_robot_A L W (encM b.moves) (encM b.rewards) (encM b.loose) q.pTile
-  | .B => Ex.Gen.write_robot_B L W (encM b.moves) (encM b.rewards) (encM b.loose) q.pTile q.pRobot
-  | .C => Ex.Gen.write_robot_C L W (encM b.moves) (encM b.rewards) (encM b.loose) q.pTile q.pRobot q.pLight
-
-def encTl (v : Variant) (L W : Nat) (b : Board) (q : Params Float) : List (List (Py.Slot × Int)) :=
-  match v with
-  | .A => encTlA L W b q.pTile
-  | .B => encTlB L W b q.pTile q.pRobot
-  | .C => encTlC L W b q.pTile q.pRobot q.pLight
-
-/-- `write_robot_A_tie`, `write_robot_B_tie`, `write_robot_C_tie` in one statement -/
-theorem codeGame_tie (v : Variant) (L W : Nat) (b : Board) (q : Params Float) :
-    codeGame v L W b q
-      = ((genGame v L W b q).rewards.map Int.ofNat, (genGame v L W b q).owners.map ownerStr,
-         encTl v L W b q, (genGame v L W b q).finals.map Int.ofNat) := by
-  cases v
-  · exact write_robot_A_tie L W b q.pTile
-  · exact write_robot_B_tie L W b q.pTile q.pRobot
-  · exact write_robot_C_tie L W b q.pTile q.pRobot q.pLight
-
-theorem encTl_targets (v : Variant) (L W : Nat) (b : Board) (q : Params Float) :
-    (encTl v L W b q).map (·.map (·.2))
-      = (genGame v L W b q).tl.map (·.map (fun t => (t.tgt : Int))) := by
-  cases v
-  · exact encTlA_targets L W b q.pTile
-  · exact encTlB_targets L W b q.pTile q.pRobot
-  · exact encTlC_targets L W b q.pTile q.pRobot q.pLight
-
-theorem getD_map_default {β γ : Type} (f : β → γ) (l : List β) (k : Nat) (d : β) :
-    (l.map f).getD k (f d) = f (l.getD k d) := by
-  simp only [List.getD_eq_getElem?_getD, List.getElem?_map]
-  cases l[k]? <;> rfl
-
-theorem getD_map_of_lt {β γ : Type} (f : β → γ) (l : List β) (k : Nat) (d : β) (d' : γ)
-    (h : k < l.length) : (l.map f).getD k d' = f (l.getD k d) := by
-  simp only [List.getD_eq_getElem?_getD, List.getElem?_map, List.getElem?_eq_getElem h]
-  rfl
-
-/-- the targets of row `k` of the code's transition list are those of the model's row `k` -/
-theorem codeGame_row_targets (v : Variant) (L W : Nat) (b : Board) (q : Params Float) (k : Nat) :
-    ((codeGame v L W b q).2.2.1.getD k []).map (·.2)
-      = ((genGame v L W b q).tl.getD k []).map (fun t => (t.tgt : Int)) := by
-  rw [codeGame_tie]
-  show ((encTl v L W b q).getD k []).map (·.2) = _
-  rw [← getD_map_default (fun row : List (Py.Slot × Int) => row.map (·.2)), encTl_targets]
-  exact getD_map_default (fun row : List (Tr Float) => row.map (fun t => (t.tgt : Int))) _ k []
-
-/-- transfers `C08.gen_sizes`: the code returns `groups·L·W + 2` rewards, players and rows (4, 7, 10 groups),
-and the only final state is the last state (the winning state) -/
-theorem code_gen_sizes (v : Variant) (L W : Nat) (b : Board) (hb : BoardOK L W b) (q : Params Float) :
-    (codeGame v L W b q).1.length = C08.N v L W ∧
-    (codeGame v L W b q).2.1.length = C08.N v L W ∧
-    (codeGame v L W b q).2.2.1.length = C08.N v L W ∧
-    (codeGame v L W b q).2.2.2 = [((C08.N v L W - 1 : Nat) : Int)] := by
-  obtain ⟨h1, h2, h3, h4⟩ := C08.gen_sizes v L W b hb q
-  rw [codeGame_tie]
-  refine ⟨by rw [List.length_map, h3], by rw [List.length_map, h2], ?_, ?_⟩
-  · have := congrArg List.length (encTl_targets v L W b q)
-    rw [List.length_map, List.length_map] at this
-    rw [this, h1]
-  · show (genGame v L W b q).finals.map Int.ofNat = _
-    rw [h4, enc_win_eq]
-    cases v <;> simp [C08.N, nGroups]
-
-/-- transfers `GridLemmas.tl_rows_ok`, the carrier-generic lemma behind `C11.gen_every_state_has_transition`
-and `C11.gen_targets_in_range` (those two are stated over a field and cannot be instantiated at `Float`):
-every row of the code's transition list is non-empty and all its targets are states -/
-theorem code_gen_rows_ok (v : Variant) (L W : Nat) (b : Board) (hb : BoardOK L W b) (q : Params Float) :
-    ∀ row ∈ (codeGame v L W b q).2.2.1,
-      row ≠ [] ∧ ∀ x ∈ row, 0 ≤ x.2 ∧ x.2 < (C08.N v L W : Int) := by
-  intro row hrow
-  rw [codeGame_tie] at hrow
-  have hmem : row.map (·.2) ∈ (encTl v L W b q).map (·.map (·.2)) := List.mem_map_of_mem hrow
-  rw [encTl_targets] at hmem
-  obtain ⟨mrow, hm, he⟩ := List.mem_map.1 hmem
-  obtain ⟨hne, hlt⟩ := tl_rows_ok hb q mrow hm
-  have hN : nGroups v * (L * W) + 2 = C08.N v L W := by cases v <;> rfl
-  constructor
-  · intro h
-    rw [h] at he
-    exact hne (List.map_eq_nil_iff.1 he)
-  · intro x hx
-    have : x.2 ∈ mrow.map (fun t => (t.tgt : Int)) := by
-      rw [he]; exact List.mem_map_of_mem (f := fun x : Py.Slot × Int => x.2) hx
-    obtain ⟨t, ht, hxt⟩ := List.mem_map.1 this
-    have := hlt t ht
-    rw [hN] at this
-    omega
-
-/-- transfers `C08.gen_bisim_step`: for every valid situation `s` of the board game, row `enc s` of the code's
-transition list leads exactly (same order) to the encodings of the successors that the rules of the board game
-give to `s`; the code's player string and reward of state `enc s` are the owner and the reward of `s`; and
-`enc s` is listed as final iff `s` is the winning situation -/
-theorem code_gen_bisim_step (v : Variant) (L W : Nat) (b : Board) (hb : BoardOK L W b) (q : Params Float)
-    (s : RState) (hs : Valid v L W b s) :
-    enc v L W s < C08.N v L W ∧
-    ((codeGame v L W b q).2.2.1.getD (enc v L W s) []).map (·.2)
-      = (rules v L W b q s).map (fun x => ((enc v L W x.tgt : Nat) : Int)) ∧
-    (codeGame v L W b q).2.1.getD (enc v L W s) "" = ownerStr (owner s) ∧
-    (codeGame v L W b q).1.getD (enc v L W s) 0 = ((reward b s : Nat) : Int) ∧
-    (((enc v L W s : Nat) : Int) ∈ (codeGame v L W b q).2.2.2 ↔ s = .win) := by
-  obtain ⟨h1, h2, h3, h4, h5⟩ := C08.gen_bisim_step v L W b hb q s hs
-  obtain ⟨-, g2, g3, -⟩ := C08.gen_sizes v L W b hb q
-  refine ⟨h1, ?_, ?_, ?_, ?_⟩
-  · rw [codeGame_row_targets, h2, List.map_map]
-    rfl
-  · rw [codeGame_tie]
-    show ((genGame v L W b q).owners.map ownerStr).getD (enc v L W s) "" = _
-    rw [getD_map_of_lt ownerStr _ _ Owner.prob "" (by rw [g2]; exact h1), h3]
-  · rw [codeGame_tie]
-    show ((genGame v L W b q).rewards.map Int.ofNat).getD (enc v L W s) 0 = _
-    rw [getD_map_of_lt Int.ofNat _ _ 0 0 (by rw [g3]; exact h1), h4]
-    rfl
-  · rw [codeGame_tie, ← h5]
-    show ((enc v L W s : Nat) : Int) ∈ (genGame v L W b q).finals.map Int.ofNat ↔ _
-    rw [List.mem_map]
-    constructor
-    · rintro ⟨f, hf, he⟩
-      have : f = enc v L W s := by simpa using he
-      exact this ▸ hf
-    · exact fun h => ⟨_, h, rfl⟩
-
-/-- transfers `GridLemmas.lose_win_rows` (the carrier-generic lemma behind
-`C11.gen_only_final_is_win_absorbing`): in the code's game the last two states (losing, winning) have a single
-transition, to themselves, and carry no reward -/
-theorem code_gen_absorbing (v : Variant) (L W : Nat) (b : Board) (hb : BoardOK L W b) (q : Params Float) :
-    ((codeGame v L W b q).2.2.1.getD (C08.N v L W - 2) []).map (·.2) = [((C08.N v L W - 2 : Nat) : Int)] ∧
-    ((codeGame v L W b q).2.2.1.getD (C08.N v L W - 1) []).map (·.2) = [((C08.N v L W - 1 : Nat) : Int)] ∧
-    (codeGame v L W b q).1.getD (C08.N v L W - 2) 0 = 0 ∧
-    (codeGame v L W b q).1.getD (C08.N v L W - 1) 0 = 0 := by
-  have e1 : C08.N v L W - 1 = enc v L W .win := by rw [enc_win_eq]; cases v <;> rfl
-  have e2 : C08.N v L W - 2 = enc v L W .lose := by rw [enc_lose_eq]; cases v <;> rfl
-  obtain ⟨-, a2, -, a4, -⟩ := code_gen_bisim_step v L W b hb q .lose trivial
-  obtain ⟨-, b2, -, b4, -⟩ := code_gen_bisim_step v L W b hb q .win trivial
-  rw [e1, e2]
-  exact ⟨a2, b2, a4, b4⟩
-
-/-- the hypotheses are satisfiable: the 2×1 board of `CR.Props.C08`, all three variants -/
-example : BoardOK 2 1 C08.b21 := by unfold BoardOK; decide
-example : Valid .C 2 1 C08.b21 (.lightY 0 0) := by simp [Valid, C08.b21, Board.mv]
-example : (codeGame .A 2 1 C08.b21 ⟨0.1, 0.2, 0.3⟩).2.2.2 = [9] :=
-  (code_gen_sizes .A 2 1 C08.b21 (by unfold BoardOK; decide) _).2.2.2
-
-end Games
 
 /-! ## C03: conditioning, row by row
 
